@@ -31,6 +31,50 @@ def feat_of(r, S, slot, dev):
     return f",entry={e},stall-in-phase={ph},stalls={min(nst, 3)},{'early' if dev < 0 else 'late'}"
 
 
+def held_lower_bound(h, recs, T, now, lab):
+    """Runs in which a retrieval reservation was held over time: 'the head waits' is unambiguous only while an item is at the exit
+    and NO retrieval reservation is outstanding.  During those intervals a non-accumulating belt stands still, so an item cannot
+    reach the exit earlier than entry + travel + the definitely-stopped time it spent on the belt (a lower bound only)."""
+    ev = []
+    for x in h.hist:
+        k = x[0]
+        if k == "avail":
+            ev.append((x[2], x[1], "ready", +1))
+        elif k == "get":
+            ev.append((x[2], x[1], "ready", -1))
+            ev.append((x[2], x[1], "res", -1))
+        elif k == "grant" and x[4] == "g":
+            ev.append((x[2], x[1], "res", +1))
+        elif k == "cancel" and x[4] == "g" and x[5] == "granted":
+            ev.append((x[2], x[1], "res", -1))
+    ev.sort(key=lambda e: (e[0], e[1]))
+    ready = res = 0
+    S, start = [], None
+    for t, _, what, d in ev:
+        if what == "ready":
+            ready += d
+        else:
+            res += d
+        stopped = ready >= 1 and res == 0
+        if stopped and start is None:
+            start = t
+        elif not stopped and start is not None:
+            if t - start > 1e-7:
+                S.append((start, t))
+            start = None
+    if start is not None and now - start > 1e-7:
+        S.append((start, now))
+    h.probe("belt_held_retrieval_run_judged")
+    for r in recs:
+        if r.avail_t is None:
+            continue
+        lo = r.put_t + T + overlap(S, r.put_t, r.avail_t)
+        if r.avail_t < lo - 1e-7 * max(1, T):
+            h.violate("C13", "nonacc-frozen-lower", f"{r.name} entered at {r.put_t} and reached the exit at {r.avail_t}; while it was on the belt the head waited unclaimed "
+                      f"(no retrieval reservation outstanding) for {overlap(S, r.put_t, r.avail_t)}, so it cannot be there before {lo}", feat=lab)
+            break
+
+
 def check_belt(h):
     ad = h.ad
     slot, T, cap, acc = ad.slot, ad.travel, ad.cap, bool(ad.acc)
@@ -106,6 +150,8 @@ def check_belt(h):
                 break
     # ---------------- C13
     if held_tokens_over_time:
+        if not acc and h.kind == "cconv":
+            held_lower_bound(h, recs, T, now, lab)
         return
     S = [(r.avail_t, r.got_t if r.got_t is not None else now) for r in recs if r.avail_t is not None]
     S = [(a, b) for a, b in S if b > a]
